@@ -912,6 +912,8 @@ func (e *Engine) externalEffects(caller, f *ssa.Function, c *ssa.CallCommon) []s
 			return []string{"BD#FRESH", "BL#FRESH", "EXT"}
 		}
 		return []string{"BD", "BL", "EXT"}
+	case name == "os.Open", name == "(*os.File).Close":
+		return []string{"X|openfiles|Int"}
 	case name == "sort.Strings":
 		return []string{e.u.arrKey(types.Typ[types.String])}
 	case strings.HasPrefix(name, "(reflect.Value).Set"):
@@ -926,7 +928,7 @@ func (e *Engine) externalEffects(caller, f *ssa.Function, c *ssa.CallCommon) []s
 func pureExternal(name string) bool {
 	for _, p := range []string{"strings.", "unicode.", "unicode/utf8.", "strconv.", "math.", "errors.New", "fmt.Sprintf", "fmt.Errorf", "fmt.Sprint",
 		"(*regexp.Regexp).", "regexp.", "path/filepath.", "(reflect.Value).", "reflect.", "(*reflect.rtype).", "(reflect.Type).", "(github.com/shopspring/decimal.Decimal).",
-		"bytes.NewReader", "bytes.NewBufferString", "os.Open", "io/ioutil.ReadAll", "io.ReadAll", "encoding/json.", "net/url.", "(time.Time).", "time.", "html."} {
+		"bytes.NewReader", "bytes.NewBufferString", "io/ioutil.ReadAll", "io.ReadAll", "encoding/json.", "net/url.", "(time.Time).", "time.", "html."} {
 		if strings.HasPrefix(name, p) {
 			if name == "(reflect.Value).Set" || name == "(reflect.Value).Call" {
 				return false
